@@ -2,6 +2,7 @@
 import JanetModel.Bytecode.VerifySound
 import JanetModel.Gen.VmAccess
 import JanetModel.Unmarsh.ImageWf
+import JanetModel.PegVerify.Sound
 namespace JanetModel.Props.C10
 open JanetModel.Bytecode JanetModel.Gen.VmAccess
 
@@ -75,5 +76,16 @@ example : acceptFiber { stackSetup := true, frameSize := true, pcRange := true, 
     { status := 3, noUseval := false, noSkip := false, frame := 4, stackstart := 10, stacktop := 10, maxstack := 100 }
     [{ entrance := true, prevframe := 0, pcdiff := 1, slotcount := 2, bclen := 4, atCall := false, aIsSlot := true }] = true := by
   decide
+
+/-! ### PEG bytecode verifier
+
+`peg_verify_sound` over the tables of the CURRENT peg.c is `JanetModel.PegVerify.Obligations.peg_verify_sound` (built by the
+check on every run; on the pinned tree it does not hold: an image with zero-length bytecode is accepted and `peg/match`
+reads `bytecode[0]`). -/
+open JanetModel.PegVerify in
+theorem peg_verify_sound_of_consistent (T : PegTables) (hT : T.consistent = true) (bc : List Nat) (nc : Nat)
+    (hv : pegVerify T bc nc = true) :
+    ∃ starts : List Nat, ∀ i, Reach T bc i → i ∈ starts ∧ i < bc.length ∧ InstrSafe T bc nc starts i :=
+  reach_safe T hT bc nc hv
 
 end JanetModel.Props.C10
